@@ -553,7 +553,8 @@ XalanTransformer::compileStylesheet(
             const XalanCompiledStylesheet*&     theCompiledStylesheet)
 {
     // Clear the error message.
-    m_errorMessage.resize(1, '\0');
+    m_errorMessage.clear();
+    m_errorMessage.push_back(0);
 
     // Store error messages from problem listener.
     XalanDOMString  theErrorMessage(m_memoryManager);
@@ -1243,7 +1244,8 @@ XalanTransformer::doTransform(
     int     theResult = 0;
 
     // Clear the error message.
-    m_errorMessage.resize(1, '\0');
+    m_errorMessage.clear();
+    m_errorMessage.push_back(0);
 
     // Store error messages from problem listener.
     XalanDOMString  theErrorMessage(m_memoryManager);
